@@ -468,6 +468,33 @@ def corruption_stream(rng: random.Random, tier: str, w: Work, scale: float = 1.0
     return out
 
 
+def aftermath_sequences(rng: random.Random) -> List[Tuple[str, bytes]]:
+    """inputs meant to be loaded IN THIS ORDER on one thread: a file whose load fails half-way (zlib stream with a damaged
+    checksum / cut short / a chunk cut short, of several sizes), followed by small well-formed files (what a failed load leaves
+    behind must not affect the loads that follow)"""
+    out = []
+    small = []
+    for k in range(6):
+        s = gen.gen_sprite(rng, max_canvas=4, max_layers=2, max_frames=2, rich=False)
+        small.append(("well-formed after a failed load #%d" % k, gen.encode(s, None, rng)))
+    for npx in (16, 64 * 64, 200 * 200):
+        side = int(npx ** 0.5)
+        px = bytes((i * 37 + (i >> 3)) & 255 for i in range(side * side * 4))
+        z = bytearray(ase.deflate(px, 6))
+        bad_adler = bytes(z[:-1]) + bytes([z[-1] ^ 0x55])
+        cut = bytes(z[:max(2, len(z) // 2)])
+        garbage = bytes(z[:2]) + bytes(rng.randrange(256) for _ in range(len(z)))
+        for nm, zz in (("damaged checksum", bad_adler), ("stream cut short", cut), ("garbage after the zlib header", garbage)):
+            fr = ase.Frame(chunks=[ase.LayerChunk(), ase.CelChunk(layer=0, w=side, h=side, zraw=zz, ctype_cel=2)])
+            out.append(("zlib cel of %d pixels, %s" % (side * side, nm), ase.serialize(ase.Sprite(width=4, height=4, frames=[fr]))))
+            out += [small[rng.randrange(len(small))], small[rng.randrange(len(small))]]
+        # a file cut in the middle of a chunk payload
+        whole = ase.serialize(ase.Sprite(width=4, height=4, frames=[ase.Frame(chunks=[ase.LayerChunk(), ase.CelChunk(layer=0, w=side, h=side, pixels=px, ctype_cel=0)])]))
+        out.append(("file cut inside a %d-byte chunk" % len(px), whole[:len(whole) - len(px) // 2]))
+        out += [small[rng.randrange(len(small))]]
+    return out
+
+
 def known_class(path: str, data: bytes) -> Optional[str]:
     """decidable input classes of known_findings.json (status 'known')"""
     for k in vplib.load_known():
@@ -525,8 +552,26 @@ def check_C04(tier: str, seed: int) -> int:
                     corr_fail.append({"input": p, "mutation": desc, "profile": prof, "diff": "impl %d / model %d" % (io, mo),
                                       "_data": open(p, "rb").read()})
             distinct.add(hashlib.sha1(open(p, "rb").read()).hexdigest())
+        # loads that fail half-way followed by well-formed files, all on one thread of one driver process: the later loads must
+        # still return a sprite or an error value, and the same one as when loaded alone
+        seqs = aftermath_sequences(rng)
+        sp = [w.put(d, "seq") for _, d in seqs]
+        for prof in ("dev", "relchk"):
+            one = vplib.impl_observe(prof, sp, w.dir, 0, timeout=1200, mem_kb=2 * 1024 * 1024, shards=1, tag="seq")
+            alone = vplib.impl_observe(prof, sp, w.dir, 0, timeout=1200, mem_kb=2 * 1024 * 1024, fresh_threads=True, tag="alone")
+            for i, (desc, data) in enumerate(seqs):
+                io = outcome(one[i])
+                oc["%s:seq:%s" % (prof, outcome_class(io))] += 1
+                if outcome_class(io) == "panic":
+                    direct_fail.append({"what": "load did not return a sprite or an error value (loaded on one thread after: %s)"
+                                                % "; ".join(d for d, _ in seqs[max(0, i - 3):i]), "profile": prof, "mutation": desc,
+                                        "comments": one[i][1][:3] if one[i] else None, "_data": data})
+                elif one[i] is None or alone[i] is None or one[i][0] != alone[i][0]:
+                    corr_fail.append({"input": sp[i], "mutation": desc, "profile": prof,
+                                      "diff": "the result of a load depends on the loads before it on the same thread: %s / alone %s"
+                                              % (one[i][0][:1] if one[i] else None, alone[i][0][:1] if alone[i] else None), "_data": data})
         proof_level_coverage(v, ob, {
-            "evaluations": len(stream) * 2, "distinct_nontrivial": len(distinct),
+            "evaluations": len(stream) * 2 + 2 * len(seqs), "distinct_nontrivial": len(distinct),
             "rule": "malformed inputs: every walked field of each base file set to each boundary value (single-field, exhaustive per file), "
                     "random multi-field corruption, chunk duplication/deletion/swap, bit flips, structural truncations, hostile shapes "
                     "(20000-deep nesting, 3000 layers/frames, declared sizes at their maxima), random byte strings; each loaded in the dev and "
@@ -989,6 +1034,12 @@ def check_C02(tier, seed):
             ch = gen.default_choices()
             ch["shuffle_cels"] = True
             out.append((s, gen.encode(s, ch, rng)))
+        # nesting shapes (several groups closing at once, hidden inner groups under visible outer ones): one pixel per leaf layer
+        shapes = [lv for n in (5, 6, 7) for lv in forests(n) if max(lv) >= 2]
+        for lv in rng.sample(shapes, min(len(shapes), 150 if tier == "quick" else 1500)):
+            flags = [rng.choice([1, 1, 1, 0]) for _ in lv]
+            s = forest_sprite(lv, flags, rng)
+            out.append((s, gen.encode(s, None, rng)))
         return out
     return run_sprites("C02", tier, seed, 2, 300, 4000, dict(max_canvas=10, max_layers=8, max_frames=3, rich=False), [1, 22],
                        direct_C02,
@@ -1166,6 +1217,13 @@ def direct_C08(s, data, blk) -> List[str]:
                     if im[2 + y * W + x] != want:
                         out.append("tilemap(%d,%d) image pixel (%d,%d) is %d, tile lookup says %d" % (l, f, x, y, im[2 + y * W + x], want))
                         return out[:3]
+        elif im is not None and c["x"] % tw == 0 and c["y"] % th == 0 and s["depth"] == 32:
+            # maps larger than the looked-up grid: the image against the tiles the file stores (the lookup agrees with them on the grid)
+            exp_im = expected_cel_image(s, f, l)
+            if im[2:] != exp_im:
+                k = next(i for i in range(len(exp_im)) if im[2 + i] != exp_im[i])
+                out.append("tilemap(%d,%d) image pixel (%d,%d) is %d, the stored tile there has %d" % (l, f, k % W, k // W, im[2 + k], exp_im[k]))
+                return out[:3]
     return out[:3]
 
 
@@ -1177,6 +1235,17 @@ def check_C08(tier, seed):
             s = gen.gen_sprite(rng, max_canvas=12, max_layers=4, max_frames=2, rich=False)
             if s["tilesets"] and any(c["kind"] == "tilemap" for c in s["cels"].values()):
                 out.append((s, gen.encode(s, gen.random_choices(rng), rng)))
+        # a tilemap cel that stores more than 65535 tiles (256 x 257 tiles of 1 x 1; the last row uses another tile)
+        tiles = [1 + ((x + y) % 2) for y in range(256) for x in range(256)] + [3] * 256
+        big = {"width": 256, "height": 257, "depth": 32, "transparent": 0, "durations": [100], "speed": 100, "palette_chunks": [],
+               "palette": None, "sprite_ud": None, "ext_files": [],
+               "tilesets": [{"id": 0, "count": 4, "tw": 1, "th": 1, "base": 1, "name": "t", "ext": None, "empty0": True,
+                             "pixels": [(0, 0, 0, 0), (255, 0, 0, 255), (0, 255, 0, 255), (0, 0, 255, 200)]}],
+               "layers": [{"flags": 1, "ltype": 2, "level": 0, "blend": 0, "opacity": 255, "name": "m", "tileset": 0, "ud": None,
+                           "default_w": 0, "default_h": 0}],
+               "cels": {(0, 0): {"kind": "tilemap", "x": 0, "y": 0, "w": 256, "h": 257, "opacity": 255, "tiles": tiles, "ud": None}},
+               "tags": [], "has_tags_chunk": False, "slices": []}
+        out.append((big, gen.encode(big, None, rng)))
         return out + extreme_canvas_sprites(rng, 10 if tier == "quick" else 100)
     return run_sprites("C08", tier, seed, 12, 50, 500, dict(max_canvas=12, max_layers=4, max_frames=2, rich=False),
                        [1, 19, 20, 25, 26, 27], direct_C08,
@@ -1449,13 +1518,14 @@ def check_C09(tier: str, seed: int) -> int:
                 for mask in range(2 ** n):
                     flags = [(1 if (mask >> i) & 1 else 0) | (rng.randrange(64) << 1) for i in range(n)]
                     s = forest_sprite(lv, flags, rng)
-                    cases.append((s, gen.encode(s, None, rng)))
+                    # every 4th one with random values in the fields the format declares unused (reserved cel bytes, ...)
+                    cases.append((s, gen.encode(s, gen.random_choices(rng) if len(cases) % 4 == 3 else None, rng)))
                     exhaustive_n += 1
         for _ in range(60 if tier == "quick" else 600):
             n = rng.randint(9, 300)
             lv = gen.gen_levels(rng, n)
             s = forest_sprite(lv, [rng.randrange(128) for _ in range(n)], rng)
-            cases.append((s, gen.encode(s, None, rng)))
+            cases.append((s, gen.encode(s, gen.random_choices(rng) if len(cases) % 2 else None, rng)))
         # deep chains on a 2 MiB thread, hidden root / visible root
         for depth, root in ((20000, 1), (20000, 0), (65535 if tier != "quick" else 30000, 1)):
             lv = list(range(depth))
@@ -1540,7 +1610,11 @@ def check_C18(tier: str, seed: int) -> int:
                 wd, ht = rng.randint(1, 5), rng.randint(1, 5)
                 q = [(rng.randrange(5), rng.randrange(4), rng.randrange(3), rng.choice([255, 255, 255, 254, 0])) for _ in range(wd * ht)]
                 packed = [r | g << 8 | b << 16 | a << 24 for r, g, b, a in q]
-                lines.append("I %s %d %d %d %d %s" % (path, failure, transparent, wd, ht, " ".join(map(str, packed))))
+                if i % 3 == 2:
+                    # the image sits in a container longer than 4 * w * h bytes: the extra bytes are not pixels
+                    lines.append("IP %s %d %d %d %d %d %s" % (path, failure, transparent, wd, ht, rng.choice([4, 8, 4 * wd, 40]), " ".join(map(str, packed))))
+                else:
+                    lines.append("I %s %d %d %d %d %s" % (path, failure, transparent, wd, ht, " ".join(map(str, packed))))
                 meta.append(("I", pal, failure, transparent, q, wd, ht))
         res = {prof: vplib.run_sharded([vplib.impl_driver(prof), "util"], lines, w.dir, "util_" + prof) for prof in ("release", "dev")}
         mb = vplib.run_sharded([vplib.MODEL_DRIVER, "util"], lines, w.dir, "util_model", model=True)
@@ -2552,6 +2626,19 @@ def check_C16(tier: str, seed: int) -> int:
             items.append((w.put(data), "tilemap sprite with canvas %dx%d" % (s["width"], s["height"])))
         for desc, data in many_layer_files(rng) + big_tileset_files(rng):
             items.append((w.put(data), desc))
+        # a family of tiny sprites that differ in ONE thing only (the blend mode of the upper layer / its opacity / one pixel):
+        # rendered one after the other on one thread they must not influence each other
+        family = []
+        for (bk, src) in (((200, 100, 50, 255), (255, 255, 255, 255)), ((10, 200, 90, 128), (90, 40, 250, 200))):
+            for m in range(19):
+                for lo in (255, 128):
+                    fr = ase.Frame(chunks=[ase.LayerChunk(flags=1, blend=0, opacity=255, name="b"), ase.LayerChunk(flags=1, blend=m, opacity=lo, name="s"),
+                                           ase.CelChunk(layer=0, w=2, h=1, pixels=ase.rgba_bytes([bk, bk]), ctype_cel=0),
+                                           ase.CelChunk(layer=1, w=2, h=1, pixels=ase.rgba_bytes([src, src]), ctype_cel=0)])
+                    family.append(("family: mode %d opacity %d" % (m, lo), ase.serialize(ase.Sprite(width=2, height=1, frames=[fr]))))
+        fam_first = len(items)
+        for desc, data in family:
+            items.append((w.put(data), desc))
         stream = corruption_stream(rng, "quick", w, scale=0.08 if tier == "quick" else 0.5)
         pre = vplib.impl_observe("release", [p for p, _ in stream], w.dir, 0, mem_kb=2 * 1024 * 1024)
         loadable = [stream[i] for i in range(len(stream)) if outcome(pre[i]) == 0]
@@ -2568,6 +2655,17 @@ def check_C16(tier: str, seed: int) -> int:
         fwd = vplib.impl_observe("release", paths, w.dir, 15, max_frames=3, max_layers=5, shards=4, tag="fwd")
         rev_paths = list(reversed(paths))
         rev = list(reversed(vplib.impl_observe("release", rev_paths, w.dir, 15, max_frames=3, max_layers=5, shards=4, tag="rev")))
+        fam = list(range(fam_first, fam_first + len(family)))
+        fam1 = vplib.impl_observe("release", [paths[i] for i in fam], w.dir, 15, max_frames=3, max_layers=5, shards=1, tag="fam1")
+        fam2 = list(reversed(vplib.impl_observe("release", [paths[i] for i in reversed(fam)], w.dir, 15, max_frames=3, max_layers=5, shards=1, tag="fam2")))
+        for k, i in enumerate(fam):
+            for nm, other in (("in list order", fam1), ("in reverse order", fam2)):
+                if iso[i] is None or other[k] is None or iso[i][0] != other[k][0]:
+                    direct_fail.append({"what": "the observation of a sprite depends on the sprites rendered before it on the same thread (%s vs isolated)" % nm,
+                                        "input": items[i][1], "_data": open(paths[i], "rb").read()})
+                    break
+            if len(direct_fail) > 6:
+                break
         for i, (p, desc) in enumerate(items):
             for nm, other in (("in list order", fwd), ("in reverse order", rev)):
                 a, b = iso[i], other[i]
@@ -2703,6 +2801,13 @@ def c12_inputs(rng: random.Random, tier: str) -> List[Tuple[str, bytes]]:
         ase.LayerChunk(), ase.CelChunk(layer=0, ctype_cel=2, w=4097, h=4096, zraw=zeros64)])]))))
     out.append(("bomb tileset 4097 tiles of 64x64", ase.serialize(ase.Sprite(width=4, height=4, frames=[ase.Frame(chunks=[
         ase.TilesetChunk(id=0, tile_count=4097, tile_w=64, tile_h=64, zraw=zeros64)])]))))
+    # millions of 1 x 1 / 2 x 2 tiles in an indexed and a grayscale tileset (anything kept per tile shows up)
+    for depth, (tw, th), ntiles in ((8, (1, 1), 1 << 23), (16, (1, 1), 1 << 22), (8, (2, 2), 1 << 21)) if tier != "quick" else ((8, (1, 1), 1 << 23), (16, (1, 1), 1 << 22)):
+        bpp = {8: 1, 16: 2}[depth]
+        z = ase.deflate(b"\0" * (ntiles * tw * th * bpp), 9)
+        ch = ([ase.PaletteChunk(entries=[(0, 0, 0, 255)])] if depth == 8 else []) + [ase.TilesetChunk(id=0, tile_count=ntiles, tile_w=tw, tile_h=th, zraw=z)]
+        out.append(("tileset of %d tiles of %dx%d, depth %d" % (ntiles, tw, th, depth),
+                    ase.serialize(ase.Sprite(width=4, height=4, depth=depth, frames=[ase.Frame(chunks=ch)]))))
     # two declared fields inflated together (frame size + chunk count, chunk size + frame size, width + height, count + size)
     for name, data in bases:
         fs = [f for f in ase.mutable_fields(data) if f.kind in ("size", "count", "dim", "length")]
